@@ -348,5 +348,5 @@ META = {
                   "curve; the Kelvin formula and geometry tables are compared with the physical oracle. Symbolic points make "
                   "the identities hold for arbitrary data values; the number of points is fixed at 4 (methods) / 6 (window).",
     "level_note": "Trusted: sympy; numpy elementwise semantics. The recurrences are loops over the points; identities are checked "
-                  "for 4 symbolic points (each loop iteration is exercised). Not decided: monotone widths, single-peak behaviour.",
+                  "for 4 symbolic points (each loop iteration is exercised). Not decided: monotone widths, single-peak behaviour, the thickness-correction terms of the recurrences with a non-zero layer (method-specific numerical results, no stated oracle) and the reported pore areas.",
 }
